@@ -60,19 +60,34 @@ def replay(args):
         elif kind != "elaborate":
             outs.append({"tid": tid, "key": f"{shape}|{kind}|{','.join(tops)}", "val": dg})
     _verif.set_sink(None)
+    fresh = bool(case.get("fresh_parents"))
     # afterwards: every module on its own
-    for name in sorted(mods):
+    for name in ([] if fresh else sorted(mods)):
         raised, dg, exc = ET.do_call(h, "to_proto", [mods[name]])
         outs.append({"tid": tid, "key": f"{shape}|to_proto|{name}", "val": exc if raised else dg})
     # an already elaborated module instantiated by a NEW parent, which must see its bundle-level port; and a refused addition
+    # (in the `fresh_parents` reference histories nothing was elaborated before: the new parents must come out the same, and a parent that
+    #  is refused on a fresh child must be refused on an elaborated one)
     extra = []
-    for name in sorted(set(t for c in calls for t in c)):
+    for name in sorted(set(t for c in calls for t in c) if not fresh else case["parents_of"]):
         m = mods[name]
-        if m._elaborated is None:
+        if m._elaborated is None and not fresh:
             continue
+        has_bp = "bp" in (m._pre_flattening_io or {}) or m.get("bp") is not None
+        if has_bp:
+            # a bundle of ANOTHER type whose signals are a strict superset of the port's: not a B1, must be refused whatever happened before
+            from hdl21 import Bundle
+            sup = Bundle(name="B1sup")
+            sup.x, sup.y, sup.extra = h.Signal(), h.Signal(width=2), h.Signal()
+            bad = h.Module(name="BadParent_" + name)
+            bad.s = h.Signal()
+            bad.b = sup()
+            bad.i = m(p=bad.s, bp=bad.b)
+            raised, dg, exc = ET.do_call(h, "to_proto", [bad])
+            outs.append({"tid": tid, "key": f"{shape}|badparent|{name}", "val": "refused" if raised else "accepted"})
         p = h.Module(name="NewParent_" + name)
         p.s = h.Signal()
-        if "bp" in (m._pre_flattening_io or {}) or m.get("bp") is not None:
+        if has_bp:
             p.b = bld.bundle("B1")()
             p.i = m(p=p.s, bp=p.b)
         else:
@@ -90,6 +105,8 @@ def replay(args):
             q.i3 = m(p=q.i1.p, bp=h.NoConn())
             raised, dg, exc = ET.do_call(h, "to_proto", [q])
             outs.append({"tid": tid, "key": f"{shape}|newparent|ref_{name}", "val": exc if raised else dg})
+        if fresh:
+            continue
         # additions to an elaborated module must be refused - and a refused one must leave the module as it was
         attempts = [("late", lambda: m.add(h.Signal(name="late"))), ("p", lambda: setattr(m, "p", h.Input()))]
         inst_names = list(m.instances)
@@ -102,7 +119,7 @@ def replay(args):
             except Exception:
                 extra.append({"tid": tid, "key": f"{shape}|add_after_elab|{name}.{an}", "val": "refused"})
     # ... every module once more, after the refused additions: same outputs as before
-    for name in sorted(mods):
+    for name in ([] if fresh else sorted(mods)):
         raised, dg, exc = ET.do_call(h, "to_proto", [mods[name]])
         extra.append({"tid": tid, "key": f"{shape}|to_proto|{name}", "val": exc if raised else dg})
     return events, outs + extra
@@ -234,6 +251,7 @@ def run(tier, seed, replay_file=None):
                     cases.append({"shape": shape, "calls": c["calls"], "kinds": list(ks)})
             for name in ET.SHAPES[shape]:
                 cases.append(reference_case(shape, name))
+                cases.append({"shape": shape, "calls": [], "kinds": [], "reference": True, "fresh_parents": True, "parents_of": [name]})
         o.exhaustive = True
     import multiprocessing as mp
     ctx = mp.get_context("fork")
@@ -259,6 +277,9 @@ def run(tier, seed, replay_file=None):
         o.transitions += r.generated
         for tid, ok, clause in r.verdicts:
             v2[tid] = (ok, clause)
+    for i, t in enumerate(traces):
+        if not t:
+            v1.setdefault(i, (True, ""))        # (the fresh-parent reference histories make no call of their own: no events)
     if len(v1) != len(cases) or len(v2) != len(cases):
         raise tlc.TlcError(f"C07: {len(cases)} histories, {len(v1)} event verdicts, {len(v2)} register verdicts")
     o.traces = len(cases)
@@ -286,6 +307,8 @@ def run(tier, seed, replay_file=None):
             o.cover["out_" + k] = o.cover.get("out_" + k, 0) + 1
             if k == "add_after_elab" and r["val"] != "refused":
                 o.violations.append(Violation(clause="addition_after_elaboration_accepted", case=case, features=[], detail=r))
+            if k == "badparent" and r["val"] != "refused":
+                o.violations.append(Violation(clause="parent_with_a_bundle_of_another_type_accepted", case=case, features=[], detail=r))
             if k == "newparent" and ":" in r["val"]:
                 o.violations.append(Violation(clause="new_parent_of_elaborated_module_rejected", case=case, features=[], detail=r))
         ok1, c1 = v1[i]
